@@ -34,7 +34,7 @@ fn menu(st: &FileState) -> Vec<Step> {
     let syms = lines_of(&st.content);
     let body = |ch: u8, syms: &[u8]| -> Vec<u8> { syms.iter().flat_map(|s| { let mut l = vec![ch]; l.extend(sym_line(*s)); l }).collect() };
     if !st.deleted && !syms.is_empty() {
-        let hs: Vec<_> = hunks_for(&syms, 1, &[0, 1]).into_iter().filter(|h| h.rm <= 1).collect();
+        let hs: Vec<_> = hunks_for(&syms, 1, &[0, 1]).into_iter().filter(|h| h.rm <= 1 && h.inner.is_none()).collect();
         for h in &hs {
             for &rev in &[false, true] {
                 v.push(Step { patch: render(&syms, &[h], rev), reverse: rev, fuzz: if h.corrupt.is_some() { 1 } else { 0 }, label: format!("modify{}", if rev { "-R" } else { "" }) });
